@@ -1,8 +1,11 @@
 package compose
 
 import (
+	"sync"
+
 	"fmt"
 	"strings"
+	"verif/internal/kf"
 
 	"pgregory.net/rapid"
 )
@@ -801,9 +804,19 @@ func Gen(t *rapid.T) Case {
 			body = append(body, g.probe(sc, nil))
 		}
 		c.Comps[i].Body = body
-		if body[0].Kind == KTpl || body[0].Kind == KInc {
+		if (body[0].Kind == KTpl || body[0].Kind == KInc) && exclCompBodyStartsWithTemplateTag() {
 			c.Comps[i].Root = true // ExclCompBodyStartsWithTemplateTag
 		}
 	}
 	return c
+}
+
+var exclOnce sync.Once
+var exclStartsWithTpl bool
+
+// exclCompBodyStartsWithTemplateTag: the shape is generated unless the corresponding finding is
+// listed as open in /verif/known_findings.json (it was repaired in /repo commit 71f20a2).
+func exclCompBodyStartsWithTemplateTag() bool {
+	exclOnce.Do(func() { exclStartsWithTpl = kf.Load().Open("C05-component-file-starts-with-template-tag") })
+	return exclStartsWithTpl
 }
